@@ -198,11 +198,28 @@ def c17_2(R):
     b = R.body(VS + "::maybe_send_syn_ack")
     sends = [t for t in b.calls() if call_matches(t, (VS + "::send_ack",))]
     R.floor("send_ack in maybe_send_syn_ack", len(sends), 1)
+    # the repetition counter: the local stored back as SynAckSent { count: L + 1 } (it starts from 0 / the state's count)
+    cnt = None
+    for s_ in b.stmts():
+        if s_.rv.kind == "agg" and s_.rv.j.get("variant") == "SynAckSent" and s_.rv.ops:
+            bt, k = int_affine(b, s_.rv.ops[0])
+            if bt.kind == "multi" and not bt.fields:
+                cnt = bt.root[1]
+                srcs = set()
+                for d_ in b.all_defs(cnt):
+                    if isinstance(d_, Stmt) and d_.rv.ops:
+                        srcs |= value_sources(b, d_.rv.ops[0])
+                from_state = any(x[0] == "field" and x[1].endswith("SynAckSent.count") for x in srcs) and ("const", 0) in srcs
+                if k == 1 and from_state:
+                    R.ok("synack-counter+1", b.name, "state = SynAckSent { count: sent_count + 1 }, sent_count from 0 / the state's count")
+                else:
+                    R.fail([b.name, "SynAckSent.count", "sent_count%+d" % k, "from-state=%s" % from_state], "a SYN-ACK transmission no longer advances the repetition counter by one: the cap is never reached (unbounded repeats) or reached early", where=s_.where(), instance="synack-counter+1")
+    R.require(cnt is not None, "state = SynAckSent { count: .. } in maybe_send_syn_ack")
     for t in sends:
         ok = False
         for c, truth, d, *_ in controlling(b, t.bb):
             for r_, x_, y_ in implied(c, truth):
-                if r_ == "ne" and "max_segment_retransmissions" in trace(b, y_).describe() and "sent_count" in trace(b, x_).describe():
+                if r_ == "ne" and "max_segment_retransmissions" in trace(b, y_).describe() and (lambda tx: tx.kind == "multi" and tx.root[1] == cnt and not tx.fields)(trace(b, x_)):
                     ok = True
         if ok:
             R.ok("synack=>below-cap", b.name)
@@ -293,6 +310,29 @@ def c17_3(R):
         R.ok("fin-packet-seq", mf.name, "fin.seq_nr = our_fin")
     else:
         R.fail([mf.name, "fin.seq_nr-source"], "the FIN packet does not carry our_fin as its sequence number", where=mf.where(), instance="fin-packet-seq")
+    # both FIN emitters type the header ST_FIN before sending it; the abort FIN of the death path takes self.seq_nr and advances it
+    for fn in (VS + "::maybe_send_fin", VS + "::just_before_death"):
+        fb = R.body(fn)
+        sends = [t for t in fb.calls() if call_matches(t, (VS + "::send_control_packet",))]
+        typed = {t.bb for t in fb.calls() if call_matches(t, ("raw::UtpHeader::set_type",)) and "ST_FIN" in classify(fb, t.args[1])}
+        R.floor("send_control_packet in " + fn.split("::")[-1], len(sends), 1)
+        for t in sends:
+            if typed and must_pass_blocks(fb, [t.bb], typed)[0]:
+                R.ok("fin-packet-typed", fn.split("::")[-1], "set_type(ST_FIN) on every path to the send")
+            else:
+                R.fail([fn, "send_control_packet-without(set_type(ST_FIN))"], "%s sends its closing packet without typing it ST_FIN: the peer sees a plain state packet and never learns of the close" % fn.split("::")[-1], where=t.where(), instance="fin-packet-typed")
+    jb = R.body(VS + "::just_before_death")
+    sends = [t for t in jb.calls() if call_matches(t, (VS + "::send_control_packet",))]
+    wr = [s_ for s_ in jb.stmts() if written_field(jb, s_) == "UtpHeader.seq_nr"]
+    inc = {x.bb for x in jb.calls() if call_matches(x, ("AddAssign::add_assign",)) and trace(jb, x.args[0]).last_field == "VirtualSocket.seq_nr" and x.args[1].scalar == 1}
+    ok_src = wr and all(trace(jb, s_.rv.ops[0]).last_field == "VirtualSocket.seq_nr" for s_ in wr)
+    ok_path = sends and all(must_pass_blocks(jb, [t.bb], {s_.bb for s_ in wr})[0] and must_pass_blocks(jb, [t.bb], inc)[0] for t in sends) and inc
+    ok_order = all(point_reaches(jb, s_, x) for s_ in wr for x in jb.calls() if x.bb in inc and call_matches(x, ("AddAssign::add_assign",)))
+    if ok_src and ok_path and ok_order:
+        R.ok("abort-fin=seq_nr", jb.name, "fin.seq_nr = self.seq_nr; seq_nr += 1; before the send")
+    else:
+        R.fail([jb.name, "abort-fin", "seq-from-seq_nr=%s stamped-and-advanced-before-send=%s read-before-advance=%s" % (bool(ok_src), bool(ok_path), bool(ok_order))],
+               "the FIN sent when a connection dies with an error does not carry self.seq_nr (then advanced by one): it collides with a data sequence number or is rejected as out of sequence", where=jb.where(), instance="abort-fin=seq_nr")
 
 
 @rule("C17.4", ["C17", "C03"], ["E2"], "the FIN is sent only after all accepted data, and no new payload follows it",
@@ -389,7 +429,10 @@ def c17_5(R):
         # classification of the exit that follows directly
         nxt = [cls for it, cls in ret_assignments(b) if it.bb in b.reachable(s.bb) and must_pass_blocks(b, [it.bb], {s.bb})[0]]
         if k[0] == "LastAck":
-            if any(c.startswith("Ok") for c in nxt):
+            answered = guarded(b, s.bb, "eq", lambda o: trace(b, o).last_field == "UtpHeader.ack_nr", lambda o: trace(b, o).last_field == "VirtualSocketState::LastAck.our_fin")
+            if not answered:
+                R.fail([PIM, "reset-LastAck-clean-close", "not-under(ack_nr==our_fin)"], "a RESET in LastAck closes cleanly although it does not acknowledge our FIN (and the one that does is reported as an error): the error/clean distinction of the close handshake is inverted", where=s.where(), instance="reset-exit")
+            elif any(c.startswith("Ok") for c in nxt):
                 R.ok("reset-exit", "LastAck && ack==our_fin", "clean close")
             else:
                 R.fail([PIM, "reset-LastAck-exit", ",".join(sorted(set(nxt)))], "RESET acknowledging our FIN no longer closes cleanly", where=s.where(), instance="reset-exit")
